@@ -38,11 +38,15 @@ theorem rstep_obs (c : Conf) (h : c.readsOk = okReads c.rOuts) :
   all_goals
     simp only [Conf.rDone, Conf.addLin, okReads_append, ← h]
     try simp [okReads]
+  all_goals
+    cases c.rb.sem <;> simp [Conf.rDone, Conf.addLin, okReads_append, ← h, okReads]
 
 theorem wstep_robs (c : Conf) : (wstep c).readsOk = c.readsOk ∧ (wstep c).rOuts = c.rOuts := by
   unfold wstep
   repeat' split
-  all_goals simp [Conf.wDone, Conf.addLin, Conf.linWrite]
+  all_goals first
+    | (cases c.rb.sem <;> simp [Conf.wDone, Conf.addLin, Conf.linWrite]; done)
+    | simp [Conf.wDone, Conf.addLin, Conf.linWrite]
 
 /-! ### writer -/
 
